@@ -40,8 +40,9 @@ Qed.
 (* ---- add / sub *)
 Lemma add_block_char w a b : 0 <= w -> add_block w a b = trunc w (a + b).
 Proof.
-  intros Hw. unfold add_block. cbv zeta. rewrite AddCarryIn_char.
-  change (Constant_propagate 1 0) with 0. f_equal; lia.
+  (* unfolds the generated AddCarryIn / Constant here: the carry-in wire is the constant 0 *)
+  intros Hw. unfold add_block, AddCarryIn_propagate, Constant_propagate. cbv zeta. rewrite !Wire_put_trunc.
+  try change (Wire_put 1 0) with 0. f_equal; lia.
 Qed.
 
 Lemma fxadd_spec F a b : wf F -> fxadd F F F a b = Some (spec_add (fwidth F) a b).
@@ -114,6 +115,10 @@ Proof.
   unfold fxsign. rewrite Hs. cbn [Z.eqb Pos.eqb]. f_equal. apply Bit_char; lia.
 Qed.
 
+Lemma fxsign_both F a : wf F -> enc F a ->
+  fxsign F a = Some (bitZ a (fint F + ffrac F)) /\ fxsign F a = Some (spec_sign (fwidth F) a).
+Proof. intros HF Ha. exact (conj (fxsign_is_bit F a HF) (fxsign_spec F a HF Ha)). Qed.
+
 (* ---- mult *)
 Lemma window_div x ww low wr : 0 <= low -> 0 <= wr -> low + wr <= ww ->
   ((x mod 2 ^ ww) / 2 ^ low) mod 2 ^ wr = (x / 2 ^ low) mod 2 ^ wr.
@@ -145,6 +150,74 @@ Proof.
   unfold spec_mul, fxint. apply window_div; lia.
 Qed.
 
+(* no guard on the top of the window when the product is non-negative: the bits above the product are zero anyway *)
+Lemma fxmul_spec_nonneg af bf rf a b : wf af -> wf bf -> wf rf -> enc af a -> enc bf b ->
+  0 <= mul_low af bf rf -> 0 <= fxint (fwidth af) a * fxint (fwidth bf) b ->
+  fxmul af bf rf a b = Some (spec_mul (fwidth af) (ffrac af) (fwidth bf) (ffrac bf) (fwidth rf) (ffrac rf) a b).
+Proof.
+  intros Ha Hb Hr Ea Eb Hlow Hp. unfold mul_low in *. unfold enc, fxint in *.
+  destruct (wf_width _ Ha) as [Hwa _], (wf_width _ Hb) as [Hwb _], (wf_width _ Hr) as [Hwr _].
+  unfold fxmul. cbv zeta. destruct (Z.ltb_spec (ffrac af + ffrac bf - ffrac rf) 0) as [Hc|_]; [lia|]. f_equal.
+  set (low := ffrac af + ffrac bf - ffrac rf) in *.
+  rewrite Range_char by lia. rewrite !SignExtend_char by lia. rewrite Mul_char.
+  rewrite trunc_mul_l, trunc_mul_r by lia.
+  replace (low + fwidth rf - low + 1) with (fwidth rf + 1) by lia.
+  rewrite trunc_trunc_le by lia.
+  pose proof (sgn_range (fwidth af) a Hwa Ea) as Ra. pose proof (sgn_range (fwidth bf) b Hwb Eb) as Rb.
+  set (sa := sgn (fwidth af) a) in *. set (sb := sgn (fwidth bf) b) in *.
+  pose proof (pow2_pos (fwidth af - 1) ltac:(lia)) as Pa. pose proof (pow2_pos (fwidth bf - 1) ltac:(lia)) as Pb.
+  assert (Hpw : 2 ^ (fwidth af + fwidth bf) = 4 * (2 ^ (fwidth af - 1) * 2 ^ (fwidth bf - 1))).
+  { rewrite <- Z.pow_add_r by lia. change 4 with (2 ^ 2). rewrite <- Z.pow_add_r by lia. f_equal; lia. }
+  assert (Hle : sa * sb <= 2 ^ (fwidth af - 1) * 2 ^ (fwidth bf - 1)) by nia.
+  rewrite (trunc_small (fwidth af + fwidth bf)) by lia.
+  unfold spec_mul, fxint. fold sa sb. rewrite trunc_mod by lia. reflexivity.
+Qed.
+
+(* ... and with a NEGATIVE product a window that reaches above bit wa+wb-1 is always wrong: this is exactly finding C14-F1 *)
+Lemma fxmul_wide_window_neg af bf rf a b : wf af -> wf bf -> wf rf -> enc af a -> enc bf b ->
+  0 <= mul_low af bf rf -> fwidth af + fwidth bf < mul_low af bf rf + fwidth rf ->
+  fxint (fwidth af) a * fxint (fwidth bf) b < 0 ->
+  fxmul af bf rf a b <> Some (spec_mul (fwidth af) (ffrac af) (fwidth bf) (ffrac bf) (fwidth rf) (ffrac rf) a b).
+Proof.
+  intros Ha Hb Hr Ea Eb Hlow Hwide Hp. unfold mul_low in *. unfold enc, fxint in *.
+  destruct (wf_width _ Ha) as [Hwa _], (wf_width _ Hb) as [Hwb _], (wf_width _ Hr) as [Hwr _].
+  unfold fxmul. cbv zeta. destruct (Z.ltb_spec (ffrac af + ffrac bf - ffrac rf) 0) as [Hc|_]; [lia|].
+  set (low := ffrac af + ffrac bf - ffrac rf) in *.
+  rewrite Range_char by lia. rewrite !SignExtend_char by lia. rewrite Mul_char.
+  rewrite trunc_mul_l, trunc_mul_r by lia.
+  replace (low + fwidth rf - low + 1) with (fwidth rf + 1) by lia.
+  rewrite trunc_trunc_le by lia.
+  pose proof (sgn_range (fwidth af) a Hwa Ea) as Ra. pose proof (sgn_range (fwidth bf) b Hwb Eb) as Rb.
+  unfold spec_mul, fxint. fold low.
+  set (sa := sgn (fwidth af) a) in *. set (sb := sgn (fwidth bf) b) in *.
+  set (ww := fwidth af + fwidth bf) in *. set (wr := fwidth rf) in *.
+  pose proof (pow2_pos (fwidth af - 1) ltac:(lia)) as Pa. pose proof (pow2_pos (fwidth bf - 1) ltac:(lia)) as Pb.
+  assert (Hpw : 2 ^ ww = 4 * (2 ^ (fwidth af - 1) * 2 ^ (fwidth bf - 1))).
+  { unfold ww. rewrite <- Z.pow_add_r by lia. change 4 with (2 ^ 2). rewrite <- Z.pow_add_r by lia. f_equal; lia. }
+  assert (Hge : - (2 ^ (fwidth af - 1) * 2 ^ (fwidth bf - 1)) <= sa * sb) by nia.
+  assert (Ht : trunc ww (sa * sb) = sa * sb + 2 ^ ww).
+  { replace (sa * sb) with (sa * sb + 2 ^ ww + (-1) * 2 ^ ww) at 1 by lia.
+    rewrite trunc_add_pow by lia. apply trunc_small; lia. }
+  rewrite Ht. rewrite trunc_mod by lia.
+  pose proof (pow2_pos low Hlow) as Pl. pose proof (pow2_pos wr ltac:(lia)) as Pr.
+  intros Heq. injection Heq as Heq.
+  destruct (Z.le_gt_cases low ww) as [Hle | Hgt].
+  - assert (Hsplit : 2 ^ ww = 2 ^ (ww - low) * 2 ^ low) by (rewrite <- Z.pow_add_r by lia; f_equal; lia).
+    rewrite Hsplit in Heq. rewrite Z.div_add in Heq by lia.
+    set (q := sa * sb / 2 ^ low) in *. set (k := 2 ^ (ww - low)) in *.
+    assert (Hk : 0 < k < 2 ^ wr).
+    { unfold k. split; [apply pow2_pos; lia | apply pow2_lt; lia]. }
+    assert (Hz : k mod 2 ^ wr = 0).
+    { replace k with (q + k - q) by lia. rewrite Zminus_mod, Heq, Z.sub_diag. apply Z.mod_0_l; lia. }
+    rewrite Z.mod_small in Hz by lia. lia.
+  - assert (Hlt : 2 ^ ww < 2 ^ low) by (apply pow2_lt; unfold ww; lia).
+    rewrite Z.div_small in Heq by lia.
+    assert (Hq : sa * sb / 2 ^ low = -1) by (symmetry; apply Z.div_unique with (sa * sb + 2 ^ low); lia).
+    rewrite Hq in Heq. rewrite Z.mod_0_l in Heq by lia.
+    assert (Hm : (-1) mod 2 ^ wr = 2 ^ wr - 1) by (symmetry; apply Z.mod_unique with (-1); lia).
+    assert (2 ^ 1 <= 2 ^ wr) by (apply pow2_le; lia). change (2 ^ 1) with 2 in *. lia.
+Qed.
+
 Lemma fxmul_window_below af bf rf a b : mul_low af bf rf < 0 -> fxmul af bf rf a b = None.
 Proof.
   intros H. unfold mul_low in H. unfold fxmul. cbv zeta.
@@ -154,6 +227,9 @@ Qed.
 (* ---- comparator *)
 Definition allones (l : list Z) : bool := forallb (fun x => x =? 1) l.
 Definition bits (l : list Z) : Prop := forall x, In x l -> 0 <= x <= 1.
+
+Lemma forallb_map' {A B} (f : B -> bool) (g : A -> B) l : forallb f (map g l) = forallb (fun x => f (g x)) l.
+Proof. induction l as [|x l IH]; cbn [map forallb]; [reflexivity | rewrite IH; reflexivity]. Qed.
 
 Lemma and_ladder_char l acc : bits l -> 0 <= acc <= 1 ->
   fold_left (fun x y => And2_propagate 1 x y) l acc = b2z ((acc =? 1) && allones l).
@@ -188,7 +264,7 @@ Proof.
     assert (Hmap : map (fun i => Not_propagate 1 (bitZ v i)) (seqZ 0 w) = map (fun i => 1 - bitZ v i) (seqZ 0 w)).
     { apply map_ext_in. intros i Hi. apply in_seqZ in Hi. apply Not_bit. apply bitZ_range; lia. }
     rewrite Hmap. rewrite and_block_char.
-    + f_equal. unfold allones. rewrite forallb_map.
+    + f_equal. unfold allones. rewrite forallb_map'.
       destruct (Z.eqb_spec v 0) as [-> | Hne].
       * apply forallb_forall. intros i Hi. apply in_seqZ in Hi. rewrite bitZ_b2z by lia.
         rewrite Z.bits_0. reflexivity.
@@ -233,8 +309,8 @@ Proof.
   unfold fxint.
   destruct (Z.eqb_spec (trunc (fwidth F) (a - b)) 0) as [H0 | Hn0];
   destruct (Z.eqb_spec (sgn (fwidth F) a) (sgn (fwidth F) b)) as [He | Hne]; try reflexivity; exfalso.
-  - apply Hne. f_equal. rewrite trunc_mod in H0 by lia.
-    pose proof (pow2_pos (fwidth F) ltac:(lia)). nia.
+  - apply Hne. f_equal. rewrite <- (trunc_small (fwidth F) a), <- (trunc_small (fwidth F) b) by lia.
+    replace a with (b + (a - b)) at 1 by lia. rewrite <- trunc_add_r, H0 by lia. f_equal; lia.
   - apply sgn_inj in He; try lia. subst b. apply Hn0. replace (a - a) with 0 by lia. reflexivity.
 Qed.
 
